@@ -35,7 +35,112 @@ pub fn judge(h: &History, recs: &[StepRec]) -> Result<(), Failure> {
     Ok(())
 }
 
+/// Byte string -> history (for the coverage-guided stage). The MAC-command streams of authentic
+/// downlinks, the CFList and the DLSettings/RxDelay octets are taken verbatim from the input, so that
+/// coverage feedback steers the very bytes the stack parses; everything else selects among shapes.
+pub fn decode_history(data: &[u8]) -> History {
+    let mut it = data.iter().copied();
+    let mut nx = move || it.next();
+    let b0 = nx().unwrap_or(0);
+    let b1 = nx().unwrap_or(0);
+    let region = REGIONS[b0 as usize % REGIONS.len()];
+    let reg = Reg::from_name(region.name()).unwrap();
+    let front = [FrontKind::Async, FrontKind::Nb, FrontKind::AsyncClassC][(b1 & 3) as usize % 3];
+    let otaa = b1 & 4 != 0;
+    let class_c = front == FrontKind::AsyncClassC;
+    let drs: Vec<u8> = (0..16u8).filter(|d| reg.is_uplink_dr(*d)).collect();
+    let mut steps = vec![];
+    let take = |n: usize, nx: &mut dyn FnMut() -> Option<u8>| -> Vec<u8> { (0..n).filter_map(|_| nx()).collect() };
+    let mut nx: Box<dyn FnMut() -> Option<u8>> = Box::new(nx);
+    let ja = |nx: &mut dyn FnMut() -> Option<u8>| -> Recipe {
+        let dl = nx().unwrap_or(0);
+        let rxd = nx().unwrap_or(1);
+        let k = nx().unwrap_or(0);
+        let cflist = match k % 4 {
+            0 => None,
+            _ => {
+                let mut raw = [0u8; 16];
+                for r in raw.iter_mut() {
+                    *r = nx().unwrap_or(0);
+                }
+                if k % 4 == 1 {
+                    raw[15] = 0;
+                } else if k % 4 == 2 {
+                    raw[15] = 1;
+                }
+                Some(RefCfList::Raw(raw))
+            }
+        };
+        Recipe::JoinAccept { dl_settings: dl, rx_delay: rxd, cflist, wrong_key: k & 0x80 != 0 && k & 0x40 != 0, stale_nonce: false, flip_bit: None, dev_addr: 0x01020304 ^ k as u32, net_id: 0x13, join_nonce: 7 + k as u32 }
+    };
+    if otaa {
+        steps.push(Step::Join(RxPlan::rx1(ja(&mut *nx))));
+    }
+    while steps.len() < 14 {
+        let Some(op) = nx() else { break };
+        let frame = |nx: &mut dyn FnMut() -> Option<u8>| -> Option<Recipe> {
+            let k = nx()?;
+            let n = nx().unwrap_or(0) as usize;
+            Some(match k % 8 {
+                0 | 1 | 2 => Recipe::Auth { delta: 1 + (k as i64 >> 6), confirmed: k & 8 != 0, port: None, payload_len: 0, fopts: vec![Cmd::Raw(take(n % 16, nx))], frm_cmds: vec![], ack: k & 16 != 0, fpending: k & 32 != 0 },
+                3 | 4 => Recipe::Auth { delta: 1, confirmed: k & 8 != 0, port: Some(0), payload_len: 0, fopts: vec![], frm_cmds: vec![Cmd::Raw(take(n % 48, nx))], ack: false, fpending: false },
+                5 => Recipe::Random(take(n % 48, nx)),
+                6 => Recipe::Replay(n as u16 * 256),
+                _ => Recipe::BitFlip { bit: n as u16 * 97, with_cmds: k & 8 != 0 },
+            })
+        };
+        match op % 8 {
+            0..=3 => {
+                let port = nx().unwrap_or(1);
+                let len = nx().unwrap_or(0) % 24;
+                let mut rx = RxPlan::default();
+                if let Some(f) = frame(&mut *nx) {
+                    match (op >> 3) % 4 {
+                        0 | 1 => rx.rx1.push(f),
+                        2 => rx.rx2.push(f),
+                        _ => {
+                            if class_c {
+                                rx.gap1.push(f)
+                            } else {
+                                rx.rx1.push(f)
+                            }
+                        }
+                    }
+                }
+                steps.push(Step::Send { port: if port == 0 { 0 } else { port.min(223) }, len, confirmed: op & 0x80 != 0, rx });
+            }
+            4 => {
+                let r = ja(&mut *nx);
+                steps.push(Step::Join(if op & 0x40 != 0 { RxPlan::rx2(r) } else { RxPlan::rx1(r) }));
+            }
+            5 => steps.push(Step::Silence(1 + (nx().unwrap_or(0) as u16 % 130))),
+            6 => steps.push(Step::SetDr(drs[nx().unwrap_or(0) as usize % drs.len()])),
+            _ => {
+                if class_c {
+                    let v: Vec<Recipe> = frame(&mut *nx).into_iter().collect();
+                    steps.push(Step::RxcListen(v));
+                } else {
+                    steps.push(Step::SetAdr(op & 0x80 != 0));
+                }
+            }
+        }
+    }
+    steps.push(Step::Silence(2));
+    steps.push(Step::Send { port: 2, len: 4, confirmed: true, rx: RxPlan::rx1(Recipe::auth_empty(1)) });
+    History { cfg: DevCfg { region, join_bias: None, front, board: (14, 0) }, activation: if otaa { Activation::Otaa } else { Activation::Abp { fcnt_up: 0, fcnt_down: None } }, board: Board::default(), rng_script: vec![], rng_seed: b0 as u64 * 131 + b1 as u64, steps }
+}
+
+/// Entry point of the libFuzzer target.
+pub fn fuzz_history(data: &[u8]) -> Result<(), Failure> {
+    let h = decode_history(data);
+    let (_, recs) = run_history(&h).map_err(|e| Failure::new("harness", h.json(), e))?;
+    judge(&h, &recs)
+}
+
 pub fn replay(case: &Value, _kf: &KnownFindings) -> Result<(), Failure> {
+    if case["kind"] == "fuzz_raw" {
+        return fuzz_history(&unhex(case["data"].as_str().unwrap_or("")));
+    }
     let h = History::from_json(case);
     let (_, recs) = run_history(&h).map_err(|e| Failure::new("harness", h.json(), e))?;
     judge(&h, &recs)
